@@ -113,6 +113,15 @@ def recognise_doc(lines, version=None, dialect="standard"):
                     if n in seen and seen[n] != (d, val):
                         return (INVALID, "conflicting header tag " + n)
                     seen[n] = (d, val)
+    # the same header tag given on several H lines with different datatypes: gfapy collects
+    # the values of one datatype; the documents do not say what a change of datatype means
+    hd = {}
+    for rec in recs:
+        if rec.rt == "H":
+            for n, d, val in rec.tags:
+                hd.setdefault(n, set()).add(d)
+    if any(len(x) > 1 for x in hd.values()):
+        r = worst(r, (UNSPEC, "header tag repeated with another datatype"))
     # references defined
     for rec in recs:
         for m, role in T.mentions(rec):
